@@ -53,6 +53,7 @@ package balanced
 import (
 	"errors"
 
+	dag "github.com/ipfs/boxo/ipld/merkledag"
 	ft "github.com/ipfs/boxo/ipld/unixfs"
 	h "github.com/ipfs/boxo/ipld/unixfs/importer/helpers"
 	ipld "github.com/ipfs/go-ipld-format"
@@ -146,6 +147,21 @@ func Layout(db *h.DagBuilderHelper) (ipld.Node, error) {
 	}
 
 	if db.HasFileAttributes() {
+		if _, ok := root.(*dag.ProtoNode); !ok {
+			// A bare raw leaf cannot carry mode/mtime: wrap it in a file
+			// node (as the trickle layout always does).
+			size, err := root.Size()
+			if err != nil {
+				return nil, err
+			}
+			newRoot := db.NewFSNodeOverDag(ft.TFile)
+			if err = newRoot.AddChild(root, size, db); err != nil {
+				return nil, err
+			}
+			if root, err = newRoot.Commit(); err != nil {
+				return nil, err
+			}
+		}
 		err = db.SetFileAttributes(root)
 		if err != nil {
 			return nil, err
